@@ -10,7 +10,9 @@ unsatisfiable for every k with flows 1/2),
 script returns the least feasible k; no decomposition with weights >= 1 has fewer walks),
 `search_range_adequate` / `search_range_adequate_float` / `mfdc_search_complete_plain` (the range k <= |E| contains the minimum
 for plain integer instances and for float instances without subset constraints), `search_range_counterexample` /
-`search_range_not_adequate` (with subset constraints it does not: 5 edges, 6 constraints, minimum 6 walks, solve() -> False).
+`search_range_not_adequate` (with subset constraints the OLD range k <= |E| did not: 5 edges, 6 constraints, minimum 6 walks, the
+old solve() -> False; reason for fix 26b11a1), `search_range_witness_solved` / `search_range_adequate_constraints(_float)` /
+`mfdc_search_complete_constraints(_float)` (the repaired range k <= |E| + #constraints contains the minimum).
 Tie: K2 LP-dump equality of kFlowDecompCycles (`enc/kfdc.py`); K3 fault-injected traces of the real MinFlowDecompCycles
 loop against the timed Lean machine (machinery of props/c13.py); K1 `kfdc.witness`: for brute-force optimal decompositions
 the Lean side builds the assignment of `kfdc_complete` and checks every row and column of `kfdcLP`.
@@ -35,7 +37,9 @@ THEOREMS = ["FP.Props.C04.kfdc_exact", "FP.Props.C04.kfdc_given_weights", "FP.Pr
             "FP.Props.C04.mfdc_search_finds", "FP.Props.C04.mfdc_min_walks", "FP.Props.C04.mfdc_minimum_int",
             "FP.Props.C04.nonScc_once", "FP.Props.C04.caps_are_flows", "FP.Props.C04.within_of_int",
             "FP.Props.C04.search_range_counterexample", "FP.Props.C04.search_range_not_adequate",
-            "FP.Props.C04.search_range_counterexample_unsolved", "FP.Props.C04.few_walks_suffice",
+            "FP.Props.C04.search_range_witness_solved", "FP.Props.C04.few_walks_suffice",
+            "FP.Props.C04.search_range_adequate_constraints", "FP.Props.C04.search_range_adequate_constraints_float",
+            "FP.Props.C04.mfdc_search_complete_constraints", "FP.Props.C04.mfdc_search_complete_constraints_float",
             "FP.Props.C04.walks_at_most_edges",
             "FP.Props.C04.search_range_adequate", "FP.Props.C04.search_range_adequate_of_bound",
             "FP.Props.C04.mfdc_search_complete_plain", "FP.Props.C04.caratheodory",
@@ -52,25 +56,28 @@ RULE = ("K2: random kFlowDecompCycles configurations of enc/kfdc.py (non-trivial
         "1 or 1/2); scale factors 1/2, 2, 3, 1/4 with float weights. A case = (instance, option setting | factor). Non-trivial: the "
         "brute-force minimum is at least 2 or some optimal walk runs through an edge more than once. K3: every single "
         "solver-invocation position of the real search forced to each inconclusive status, and the clock made late at every "
-        "position. T6: the fixed instance of search_range_counterexample (real solve(), real k-models k = 1..6, Lean witness "
-        "assignment for k = 6).")
+        "position. T6: the fixed instance of search_range_counterexample (real solve() -> True with 6 walks since fix 26b11a1, real "
+        "k-models k = 1..6, Lean witness assignment for k = 6).")
 MODEL_SCOPE = ("modelled and proven: the kFlowDecompCycles LP (walk core with the three safety options off, caps, product blocks, "
                "10d rows, given weights), the timed k-loop of MinFlowDecompCycles.solve; not modelled (covered by the K5 oracles only): "
                "stDiGraph.get_width and the min-gen-set lower bound, the safety optimisations (C05/C06), the guessed-weights shortcut, "
                "node-weighted mode (C11). "
-               "The search range `for k in range(lower bound, |E(G)| + 1)` (T6): what it guarantees is search_range_adequate_of_bound - "
-               "if SOME k-model with j <= |E| layers is satisfiable (lower bound valid, solver conclusive and in time on lo..j) the loop "
-               "returns the least satisfiable k. That such a j exists whenever any k-model is satisfiable is PROVEN for (a) plain integer "
-               "instances - weight_type=int, edge mode (no additional starts/ends), nothing ignored, every edge with the flow attribute, no "
-               "subset constraints (search_range_adequate, via few_walks_suffice: any family of walks with positive integer weights can be "
-               "replaced by at most |E| walks with the same weighted traversal counts) - and (b) float weights without subset constraints, "
-               "every edge with the attribute, some non-ignored flow value >= 1, ignored edges and additional starts/ends allowed "
-               "(search_range_adequate_float, Caratheodory on the decoded walks; caps unchanged because the same walks are kept). It is "
-               "REFUTED for inputs with subset constraints (search_range_counterexample / search_range_not_adequate: 5 edges, 6 constraints, "
-               "minimum 6 walks; solve() returns False - listed finding C04-search-range-subset-constraints, replayed on the real code by "
-               "range_witness_case). OPEN (neither proven nor refuted): integer weights with ignored edges / additional starts and ends / "
-               "edges without the attribute; float weights when all non-ignored flow values are below 1 (the K5 brute-force oracle covers "
-               "these on small inputs only)")
+               "The search range (T6) - `range(lower bound, |E(G)| + len(subset_constraints) + 1)` since fix 26b11a1: what it guarantees "
+               "is search_range_adequate_of_bound - if SOME k-model with j < hi layers is satisfiable (lower bound valid, solver conclusive "
+               "and in time on lo..j) the loop returns the least satisfiable k. That such a j <= |E| + #constraints exists whenever any "
+               "k-model is satisfiable is PROVEN for (a) integer weights, edge mode (no additional starts/ends), nothing ignored, every edge "
+               "with the flow attribute, no empty layers, constraint edges in the graph, some flow value >= 1 "
+               "(search_range_adequate_constraints: at most |E| walks re-decompose the flow - few_walks_suffice / walks_at_most_edges - plus "
+               "one covering walk of weight 0 per constraint; without constraints j <= |E| and the side conditions on empty layers and flow "
+               "values are not needed: search_range_adequate) and (b) float weights, every edge with the attribute, some non-ignored flow "
+               "value >= 1, ignored edges and additional starts/ends allowed (search_range_adequate_constraints_float / "
+               "search_range_adequate_float: Caratheodory on the decoded walks, caps unchanged because the same walks are kept). The OLD "
+               "range k <= |E| was REFUTED for inputs with subset constraints (search_range_counterexample / search_range_not_adequate: "
+               "5 edges, 6 constraints, minimum 6 walks; the old solve() returned False - repaired by 26b11a1, regression: "
+               "search_range_witness_solved and range_witness_case on the real code). OPEN (neither proven nor refuted): integer weights "
+               "with ignored edges / additional starts and ends / edges without the attribute; float weights when all non-ignored flow "
+               "values are below 1; allow_empty_walks together with subset constraints (the K5 brute-force oracle covers these on small "
+               "inputs only)")
 TRUSTED = ["HiGHS reports kOptimal only with an assignment satisfying the LP within its tolerance and kInfeasible only for "
            "unsatisfiable LPs (the `Faithful` hypothesis of mfdc_search_minimal), re-checked end to end by the brute-force oracle",
            "the brute-force oracle enumerates all walks by their edge-multiplicity vectors m <= f (complete for weights >= 1 by "
@@ -604,14 +611,21 @@ RANGE_WITNESS = {"nodes": ["s0", "m", "s1", "t0", "t1", "t2"],
 
 def range_witness_case(ctx):
     """T6 (FP.Props.C04.search_range_counterexample): two sources, a hub, three sinks, the six subset constraints
-    {(s_a,m),(m,t_b)}. Oracle: brute-force minimum (6 > |E| = 5). Real code: solve() (judged by the oracle), and the real
-    k-models k = 1..6 against the theorem (unsatisfiable for k <= 5, satisfiable for k = 6). Lean model: the assignment built
-    from the six paths satisfies kfdcLP for k = 6."""
+    {(s_a,m),(m,t_b)}. Oracle: brute-force minimum (6 > |E| = 5). Real code: since fix 26b11a1 solve() must answer True with
+    exactly six walks (judged by the oracle; FP.Props.C04.search_range_witness_solved), and the real k-models k = 1..6 agree with
+    the theorem (unsatisfiable for k <= 5, satisfiable for k = 6). Lean model: the assignment built from the six paths satisfies
+    kfdcLP for k = 6."""
     fp = ctx.fp
     inst = json.loads(json.dumps(RANGE_WITNESS))
     best = oracle(inst)
     ctx.rep.cov["oracle_evaluations"] += 1
-    judge_int(ctx, "K5.search_range", inst, "default", {}, best)
+    res = judge_int(ctx, "K5.search_range", inst, "default", {}, best)
+    if best is None or best[0] != 6:
+        ctx.violation(f"brute-force oracle: the range witness needs {best[0] if best else None} walks, expected 6", inst, site="oracle")
+    elif not (res["solved"] and res["n"] == 6):
+        # (judge_int has already reported it; named here with the regression theorem)
+        ctx.disagree("K1.range_witness", inst, {"solved": res["solved"], "n": res["n"]}, {"solved": True, "n": 6},
+                     note="search_range_witness_solved: over range(lb, |E| + #constraints + 1) the search returns 6")
     G = build_graph(inst)
     cons = [[tuple(e) for e in c] for c in inst["constraints"]]
     got = {}
